@@ -62,14 +62,17 @@ def build_scale(spec):
 
 # --------------------------------------------------------------------------- signals
 
-SIGNAL_KINDS = ["noise", "noise", "noise", "zeros", "impulse", "const", "sine", "tiny", "step", "loud_quiet"]
+SIGNAL_KINDS = ["noise", "noise", "noise", "zeros", "impulse", "const", "sine", "tiny", "step", "loud_quiet", "gated"]
 
 
-def signal_specs(n_strategy):
+EXTREME_KINDS = ["huge", "minuscule"]  # finite data near the ends of the exponent range (opt-in per clause)
+
+
+def signal_specs(n_strategy, kinds=None):
     return st.builds(
         lambda n, kind, seed, scale, layout: {"n": n, "kind": kind, "seed": seed, "scale": scale, "layout": layout},
         n_strategy,
-        st.sampled_from(SIGNAL_KINDS),
+        st.sampled_from(list(kinds or SIGNAL_KINDS)),
         st.integers(0, 2 ** 32 - 1),
         st.sampled_from([1.0, 1.0, 100.0, 1e-3, 3e4]),
         # memory layout of the array handed to the code under test (same values)
@@ -97,10 +100,21 @@ def make_signal(spec, dtype=np.float64, n=None):
         x = scale * np.sin(w * np.arange(n) + rng.uniform(0, 6.28))
     elif kind == "tiny":
         x = rng.standard_normal(n) * 1e-9
+    elif kind in ("huge", "minuscule"):
+        # finite, but squares of the samples overflow / underflow: 2**+-600 in double, 2**+-60 in single, 2**+-6 in half
+        e = {2: 6, 4: 60}.get(np.dtype(dtype).itemsize, 600)
+        x = rng.standard_normal(n) * 2.0 ** (e if kind == "huge" else -e)
     elif kind == "loud_quiet":
         # large dynamic range over time: a loud first part, then a part ~90 dB lower (still far above round-off)
         x = rng.standard_normal(n) * scale
         x[: n // 2] *= 3e4 if np.dtype(dtype).itemsize > 2 else 100.0  # half precision overflows at 65504
+    elif kind == "gated":
+        # noise with one or two runs of exact zeros (digital silence, zero padding, a noise gate)
+        x = rng.standard_normal(n) * scale
+        for _ in range(int(rng.integers(1, 3))):
+            if n:
+                a = int(rng.integers(0, n))
+                x[a : a + int(rng.integers(max(1, n // 8), n // 2 + 2))] = 0.0
     elif kind == "step":
         x = np.zeros(n)
         if n:
@@ -365,6 +379,8 @@ def stft_specs(draw, bank=None, max_len=64, rates=(1000,), default_len=False):
         "use_log": draw(st.booleans()),
         "use_power": draw(st.booleans()),
         "kaldi_shift": draw(st.booleans()),
+        # constructor arguments given by keyword (usual) or positionally, in the documented order
+        "positional": draw(st.sampled_from([False, False, False, True])),
     }
     return spec
 
@@ -374,6 +390,12 @@ def build_stft(spec, bank=None):
 
     bank = build_bank(spec["bank"]) if bank is None else bank
     rate = spec["bank"]["sampling_rate"]
+    if spec.get("positional"):
+        # documented order: bank, frame_length_ms, frame_shift_ms, frame_style, include_energy,
+        # pad_to_nearest_power_of_two, window_function, use_log, use_power, kaldi_shift
+        return STFT(bank, None if spec["L"] is None else ms_for(spec["L"], rate), ms_for(spec["S"], rate), spec["frame_style"],
+                    spec["include_energy"], spec["pad"], None if spec["window"] is None else build_window(spec["window"]),
+                    spec["use_log"], spec["use_power"], spec["kaldi_shift"])
     return STFT(
         bank,
         frame_length_ms=None if spec["L"] is None else ms_for(spec["L"], rate),
@@ -403,6 +425,7 @@ def si_specs(draw, bank=None, rates=(1000,)):
         "window": draw(st.one_of(st.none(), window_specs())),
         "use_power": draw(st.booleans()),
         "use_log": draw(st.booleans()),
+        "positional": draw(st.sampled_from([False, False, False, True])),
     }
     return spec
 
@@ -429,6 +452,11 @@ def build_si(spec, bank=None):
     bank = build_bank(spec["bank"]) if bank is None else bank
     S = effective_si_shift(spec, bank)
     rate = spec["bank"]["sampling_rate"]
+    if spec.get("positional"):
+        # documented order: bank, frame_shift_ms, frame_style, include_energy, pad_to_nearest_power_of_two,
+        # window_function, use_power, use_log
+        return SI(bank, ms_for(S, rate), spec["frame_style"], spec["include_energy"], spec["pad"],
+                  None if spec["window"] is None else build_window(spec["window"]), spec["use_power"], spec["use_log"])
     comp = SI(
         bank,
         frame_shift_ms=ms_for(S, rate),
@@ -550,6 +578,16 @@ def with_config(check):
 
 def log_floor_configs():
     return st.one_of(st.none(), st.none(), st.none(), st.sampled_from([{"LOG_FLOOR_VALUE": 1e-3}, {"LOG_FLOOR_VALUE": 1e-9}, {"LOG_FLOOR_VALUE": 0.25}]))
+
+
+def tame_threshold_case(case):
+    """A first-order gammatone filter decays like exp(-alpha t) only: at a threshold of 1e-5 or below its temporal support
+    (and the time the constructor spends searching for it) grows to seconds per bank. Such cases get order 2."""
+    cfg = case.get("config") or {}
+    bank = case.get("bank") or {}
+    if cfg.get("EFFECTIVE_SUPPORT_THRESHOLD", 1.0) <= 1e-5 and bank.get("alias") == "gammatone" and bank.get("order", 4) < 2:
+        case = dict(case, bank=dict(bank, order=2))
+    return case
 
 
 def threshold_configs():
